@@ -20,6 +20,8 @@ import BlockCiphers.Models.Cast6
 import BlockCiphers.Models.Serpent
 import BlockCiphers.Models.Gift
 import BlockCiphers.Models.Kuznyechik
+import BlockCiphers.Models.AesArmv8
+import BlockCiphers.Models.KuznyechikNeon
 /-
 All cipher models known to the driver.  One `Models/<Cipher>.lean` per crate contributes `models`
 (generic registry entries) and `specials` (operation lines that are specific to the crate).
@@ -29,10 +31,12 @@ namespace BC
 def allCiphers : List CipherModel :=
   Models.Xtea.models ++ Models.Rc5.models ++ Models.Speck.models ++
   Models.Serpent.models ++ Models.Cast6.models ++ Models.Des.models ++ Models.Threefish.models ++ Models.Rc2.models ++ Models.Blowfish.models ++ Models.Cast5.models ++
-  Models.Camellia.models ++ Models.Aria.models ++ Models.Sm4.models ++ Models.Magma.models ++ Models.Belt.models ++ Models.Twofish.models ++ Models.Idea.models ++ Models.Aes.models ++ Models.Gift.models ++ Models.Kuznyechik.models
+  Models.Camellia.models ++ Models.Aria.models ++ Models.Sm4.models ++ Models.Magma.models ++ Models.Belt.models ++ Models.Twofish.models ++ Models.Idea.models ++ Models.Aes.models ++ Models.Gift.models ++ Models.Kuznyechik.models ++ Models.AesArmv8.models ++ Models.KuznyechikNeon.models
 
 def allSpecials : List Special :=
-  Models.Xtea.specials ++ Models.Rc5.specials ++ Models.Speck.specials ++
+  -- the one `route` line is answered by a chain: NeonKuznyechik family → Armv8Aes* families → `Models.Aes.routeOp` (all others)
+  [("route", Models.KuznyechikNeon.routeOpWith Models.AesArmv8.routeOp)] ++
+  Models.KuznyechikNeon.specials ++ Models.AesArmv8.specials ++ Models.Xtea.specials ++ Models.Rc5.specials ++ Models.Speck.specials ++
   Models.Serpent.specials ++ Models.Cast6.specials ++ Models.Des.specials ++ Models.Threefish.specials ++ Models.Rc2.specials ++ Models.Blowfish.specials ++ Models.Cast5.specials ++
   Models.Camellia.specials ++ Models.Aria.specials ++ Models.Sm4.specials ++ Models.Magma.specials ++ Models.Belt.specials ++ Models.Twofish.specials ++ Models.Idea.specials ++ Models.Aes.specials ++ Models.AesFixslice.specials ++ Models.Gift.specials ++ Models.Kuznyechik.specials
 
